@@ -222,6 +222,7 @@ func runC20(seed uint64) {
 				cp.seqBump, settle = 1+uint64(op.n(3)), 200*time.Millisecond
 			case 4:
 				cp.seqBump, cp.answerEnr, settle = 1+uint64(op.n(3)), false, 3*time.Second
+				w.fault("record_request_unanswered")
 			}
 			if cp.seqBump > 0 {
 				w.probe(fmt.Sprintf("report_newer_seq_answered_%v", cp.answerEnr))
